@@ -66,13 +66,88 @@ def strip_calls(text, fname):
         text = text[:m.start()] + text[i:]
 
 
+def parse_stmt(s, i):
+    """tiny statement parser: ('simple', text) | ('if', cond, then, else) | ('block', nodes); a `for`
+    loop is its header plus its body executed once (all accesses must use the loop index itself)."""
+    while i < len(s) and s[i].isspace():
+        i += 1
+    if i >= len(s):
+        return None, i
+    if s[i] == "{":
+        nodes, i = parse_block(s, i + 1)
+        return ("block", nodes), i
+    m = re.match(r"(if|for)\s*\(", s[i:])
+    if m:
+        j, depth = i + m.end(), 1
+        while depth:
+            depth += {"(": 1, ")": -1}.get(s[j], 0)
+            j += 1
+        head = s[i + m.end():j - 1]
+        body, j = parse_stmt(s, j)
+        if m.group(1) == "for":
+            if not re.search(r"\+\+\s*i\b|\bi\s*\+\+", head):
+                raise SystemExit("rwsets: unsupported loop header `%s`" % head)
+            return ("block", [("simple", head.split(";")[1]), body]), j
+        k = j
+        while k < len(s) and s[k].isspace():
+            k += 1
+        els = None
+        if re.match(r"else\b", s[k:]):
+            els, j = parse_stmt(s, k + 4)
+        return ("if", head, body, els), j
+    j, depth = i, 0
+    while s[j] != ";" or depth:
+        depth += {"(": 1, ")": -1}.get(s[j], 0)
+        j += 1
+    return ("simple", s[i:j]), j + 1
+
+
+def parse_block(s, i):
+    nodes = []
+    while True:
+        while i < len(s) and s[i].isspace():
+            i += 1
+        if i >= len(s):
+            return nodes, i
+        if s[i] == "}":
+            return nodes, i + 1
+        n, i = parse_stmt(s, i)
+        if n:
+            nodes.append(n)
+
+
+def paths(node):
+    """all control-flow paths through a node, each a list of statement texts (conditions included)"""
+    if node is None:
+        return [[]]
+    if node[0] == "simple":
+        return [[node[1]]]
+    if node[0] == "block":
+        out = [[]]
+        for n in node[1]:
+            out = [a + b for a in out for b in paths(n)]
+        return out
+    return [[node[1]] + p for p in paths(node[2])] + [[node[1]] + p for p in paths(node[3])]
+
+
 def extract(name, path, fn):
     body = strip_calls(strip_calls(body_of(path, fn), "assert"), "BOOST_ASSERT_MSG")
+    nodes, _ = parse_block(body, 0)
+    out = []
+    for p in paths(("block", nodes)):
+        acc = extract_path(name, p)
+        if acc not in out:
+            out.append(acc)
+    if not any(a[0] == "wr" for acc in out for a in acc):
+        raise SystemExit("rwsets: %s: no output write found" % name)
+    return out
+
+
+def extract_path(name, stmts):
     ptr = dict(OBJ)                      # pointer variable -> object
     ref = {}                             # reference variable -> (object, field)
     acc = []                             # ("rd", obj, field) | ("wr", field)
-    stmts = [s.strip() for s in re.split(r"[;{}]", body)]
-    for st in stmts:
+    for st in [x.strip() for x in stmts]:
         if not st:
             continue
         m = re.search(r"(\w+)\s*=\s*static_cast<[^>]*>\s*\(\s*(\w+)\s*\)$", st)
@@ -153,34 +228,38 @@ def extract(name, path, fn):
         for fd in found:
             if fd[2] == "set":
                 acc.append(("wr", fd[4]))
-    if not any(a[0] == "wr" for a in acc):
-        raise SystemExit("rwsets: %s: no output write found" % name)
     return acc
 
 
 def render(all_acc):
     fields = []
-    for _, acc in all_acc:
-        for a in acc:
-            if a[-1] not in fields:
-                fields.append(a[-1])
+    for _, ps in all_acc:
+        for acc in ps:
+            for a in acc:
+                if a[-1] not in fields:
+                    fields.append(a[-1])
     L = ["import OmplModel.Model.SpaceInterp",
          "/-! GENERATED by extract/rwsets.py from the `interpolate` bodies of the current tree — do not edit.",
-         "Ordered reads of input-state fields / writes of output-state fields (see `SpaceInterp.Alias`). -/",
+         "Ordered reads of input-state fields / writes of output-state fields (see `SpaceInterp.Alias`),",
+         "one list per control-flow path of each body (a loop body is taken once: every access uses index `i`). -/",
          "namespace OmplModel.Generated.RwSets", "open OmplModel.SpaceInterp.Alias", "",
          "def fieldNames : List String := [%s]" % ", ".join('"%s"' % f for f in fields), ""]
-    for name, acc in all_acc:
-        items = []
-        for a in acc:
-            if a[0] == "rd":
-                items.append(".rd .%s %d" % (a[1], fields.index(a[2])))
-            else:
-                items.append(".wr %d" % fields.index(a[1]))
-        L.append("/-- %s::interpolate: %s -/" % (name, " ".join(
-            ("r(%s.%s)" % (a[1], a[2]) if a[0] == "rd" else "W(%s)" % a[1]) for a in acc)))
-        L.append("def %s : List Acc :=\n  [%s]" % (name[0].lower() + name[1:], ", ".join(items)))
+    for name, ps in all_acc:
+        rows, doc = [], []
+        for acc in ps:
+            items = []
+            for a in acc:
+                if a[0] == "rd":
+                    items.append(".rd .%s %d" % (a[1], fields.index(a[2])))
+                else:
+                    items.append(".wr %d" % fields.index(a[1]))
+            rows.append("[%s]" % ", ".join(items))
+            doc.append("  " + " ".join(("r(%s.%s)" % (a[1], a[2]) if a[0] == "rd" else "W(%s)" % a[1]) for a in acc))
+        L.append("/-- %s::interpolate, one list per control-flow path:\n%s -/" % (name, "\n".join(doc)))
+        L.append("def %s : List (List Acc) :=\n  [%s]" % (name[0].lower() + name[1:], ",\n   ".join(rows)))
         L.append("")
-    L.append("def bodies : List (List Acc) := [%s]" % ", ".join(n[0].lower() + n[1:] for n, _ in all_acc))
+    L.append("/-- every extracted path of every body -/")
+    L.append("def bodies : List (List Acc) := %s" % " ++ ".join(n[0].lower() + n[1:] for n, _ in all_acc))
     L += ["", "end OmplModel.Generated.RwSets", ""]
     return "\n".join(L)
 
